@@ -1,0 +1,108 @@
+//go:build verif
+// +build verif
+
+package mangos
+
+// Verification ledger (build tag verif only): mirrors the reference-count discipline of Message and reports
+// violations (release of an unreferenced message, clone of a released message, write into a released buffer).
+// With the tag off these functions are empty (message_noverif.go).
+
+import (
+	"fmt"
+	"runtime"
+	"sync"
+	"sync/atomic"
+)
+
+var verifLedgerOn int32
+var verifLedgerMu sync.Mutex
+var verifLedgerBad []string
+var verifPoisoned = map[*Message]bool{}
+
+const verifPoison = 0xDB
+
+// VerifLedgerEnable switches the ledger on or off and clears what it recorded.
+func VerifLedgerEnable(on bool) {
+	verifLedgerMu.Lock()
+	verifLedgerBad = nil
+	verifPoisoned = map[*Message]bool{}
+	verifLedgerMu.Unlock()
+	if on {
+		atomic.StoreInt32(&verifLedgerOn, 1)
+	} else {
+		atomic.StoreInt32(&verifLedgerOn, 0)
+	}
+}
+
+// VerifLedgerViolations returns and clears the violations recorded so far.
+func VerifLedgerViolations() []string {
+	verifLedgerMu.Lock()
+	defer verifLedgerMu.Unlock()
+	v := verifLedgerBad
+	verifLedgerBad = nil
+	return v
+}
+
+// VerifRefcnt reads a message's reference count.
+func VerifRefcnt(m *Message) int32 { return atomic.LoadInt32(&m.refcnt) }
+
+func verifBad(what string, m *Message) {
+	buf := make([]byte, 2048)
+	n := runtime.Stack(buf, false)
+	verifLedgerMu.Lock()
+	if len(verifLedgerBad) < 64 {
+		verifLedgerBad = append(verifLedgerBad, fmt.Sprintf("%s (message %p, size class %d)\n%s", what, m, m.bsize, buf[:n]))
+	}
+	verifLedgerMu.Unlock()
+}
+
+func verifOnNew(m *Message) {
+	if atomic.LoadInt32(&verifLedgerOn) == 0 {
+		return
+	}
+	verifLedgerMu.Lock()
+	was := verifPoisoned[m]
+	delete(verifPoisoned, m)
+	verifLedgerMu.Unlock()
+	if was {
+		b := m.bbuf[:cap(m.bbuf)]
+		for i := range b {
+			if b[i] != verifPoison {
+				verifBad(fmt.Sprintf("a released message was written to (byte %d of its buffer changed after release)", i), m)
+				break
+			}
+		}
+	}
+}
+
+func verifOnFree(m *Message, n int32) {
+	if atomic.LoadInt32(&verifLedgerOn) == 0 {
+		return
+	}
+	if n < 0 {
+		verifBad(fmt.Sprintf("Free of a message that has no reference left (reference count now %d): released twice", n), m)
+		return
+	}
+	if n == 0 {
+		b := m.bbuf[:cap(m.bbuf)]
+		for i := range b {
+			b[i] = verifPoison
+		}
+		h := m.hbuf[:cap(m.hbuf)]
+		for i := range h {
+			h[i] = verifPoison
+		}
+		verifLedgerMu.Lock()
+		verifPoisoned[m] = true
+		verifLedgerMu.Unlock()
+	}
+}
+
+func verifOnClone(m *Message, n int32) {
+	if atomic.LoadInt32(&verifLedgerOn) == 0 {
+		return
+	}
+	if n <= 1 {
+		verifBad(fmt.Sprintf("Clone of a message that had no reference left (reference count now %d): used after release", n), m)
+	}
+}
